@@ -492,9 +492,9 @@ theorem readLabelRaw_iters (bits : Bits) (m : Int) : (readLabelRaw bits m).2 ≤
       have := unary_len r n rest h
       simp only [List.length_cons]; omega
   | [true] => simp
-  | true :: false :: r => simp only []; split <;> simp
+  | true :: false :: r => simp only []; split <;> (try split) <;> simp
   | [true, true] => simp
-  | true :: true :: _ :: r => simp only []; split <;> simp
+  | true :: true :: _ :: r => simp only []; split <;> (try split) <;> simp
 
 /-- the `{n <= m}` test changes the verdict only, not the work done before it -/
 theorem readLabel_snd (bits : Bits) (m : Int) : (readLabel bits m).2 = (readLabelRaw bits m).2 := by
